@@ -17,7 +17,9 @@
  * iss/ret/upd = sorted payloads of the elements constructed / destructed / assigned in place during the op,
  * rawd = destructor calls on zero-filled (never constructed) elements, live = constructed and not yet destructed,
  * dig = digest over the contents of all containers, then the containers the op touched (sequences in order, maps
- * sorted by key; `_` = zero-filled element, `!` = Box pointing to a finalised object, `-` = deleted).
+ * sorted by key; sequence elements as payload@rank, rank = position of the element's identity among the identities in
+ * that container, i.e. relative construction order; `_` = zero-filled element, `!` = Box pointing to a finalised
+ * object, `-` = deleted).
  *
  * Direct oracle (X lines), independent of the Lean model: a payload-level reference of every container kept here
  * (plain arrays / association arrays) plus the token ledger:
@@ -267,7 +269,12 @@ static void check_and_print(var* H, const char* outcome, int t1, int t2) {
     if (is_map(sh[c].kind) && w->n) qsort(w->v, w->n / 2, 2 * sizeof(WEl), cmp_pair);
     fprintf(vout, " %d:%c%c", c, sh[c].kind, is_map(sh[c].kind) ? '{' : '[');
     if (is_map(sh[c].kind)) for (size_t i = 0; i + 1 < w->n; i += 2) { if (i) fputc(',', vout); print_el(vout, w->v[i].code); fputc(':', vout); print_el(vout, w->v[i+1].code); }
-    else for (size_t i = 0; i < w->n; i++) { if (i) fputc(',', vout); print_el(vout, w->v[i].code); }
+    else for (size_t i = 0; i < w->n; i++) {
+      /* payload@rank: rank of the element's identity among the identities in this container (construction order) —
+         makes identity-level moves (sort with equal payloads, push_at/pop_at shifts) observable */
+      if (i) fputc(',', vout); print_el(vout, w->v[i].code);
+      if (w->v[i].code >= 2) { int rk = 0; for (size_t j = 0; j < w->n; j++) if (w->v[j].code >= 2 && w->v[j].tok < w->v[i].tok) rk++; fprintf(vout, "@%d", rk); }
+    }
     fputc(is_map(sh[c].kind) ? '}' : ']', vout);
   }
   fputc('\n', vout);
